@@ -61,6 +61,7 @@ class C05(Prop):
             self.default_bridge = SwitcherBridge(self.rig.log.callback)
             await self.default_bridge.start()
             self.ports += [20002, 10002, 20003, 10003]
+        self.tp = await udp.probe_bridges(self.rig)
         self.tag = 0
         self.pool = []
         import time_machine
@@ -71,6 +72,8 @@ class C05(Prop):
     async def teardown(self, ctx):
         self._tm.stop()
         await self.bridge.stop()
+        for b, _, _ in self.tp:
+            await b.stop()
         if self.default_bridge is not None:
             await self.default_bridge.stop()
         self.rig.uninstall(asyncio.get_running_loop())
@@ -196,29 +199,6 @@ class C05(Prop):
         if res == "lost":
             acc.violation("sentinel-never-delivered", "a valid sentinel broadcast was consumed by the bridge but never reached the callback",
                           {"events": [str(o) for o in others][:5]})
-        if res == "ok" and len(delivered) == len(sent) and sent:
-            # the same bytes once more, this time to another port of the same bridge (devices broadcast to the old and the new
-            # port): one more well-formed broadcast, one more delivery
-            other = self.port2 if port == self.port else (self.port if port == self.port2 else [p for p in (20002, 10002, 20003, 10003) if p != port][i % 3])
-            d_last, data_last = sent[-1]
-            n_before = len([1 for k2, p2 in log.events if k2 == "device" and not udp.is_sentinel(p2)])
-            self.rig.send(port, data_last)      # original and copy back to back, nothing in between
-            self.rig.send(other, data_last)
-            res2 = await self.rig.barrier(port)
-            res2 = await self.rig.barrier(other) if res2 == "ok" else res2
-            acc.count("copies_sent_to_another_port_of_the_same_bridge")
-            if res2 == "ok":
-                now_dev = [p2 for k2, p2 in log.events if k2 == "device" and not udp.is_sentinel(p2)]
-                acc.ev(2)
-                if len(now_dev) - n_before != 2:
-                    acc.violation(f"delivery-count-wrong:{rb.MODELS[d_last['model']][2]}:copy-on-another-port", f"the same well-formed broadcast sent to port {port} and, "
-                                  f"right after, to port {other} of the same bridge: {len(now_dev) - n_before} devices delivered, want 2", {"desc": d_last})
-                else:
-                    for dev_ in now_dev[-2:]:
-                        for field, got, want in rb.compare_device(dev_, d_last):
-                            acc.violation(f"field-wrong:{rb.MODELS[d_last['model']][2]}:{field}", f"{d_last['model']} copy on another port: {field} = {got!r}, want {want!r}", {"desc": d_last})
-            elif res2 == "dropped":
-                acc.inconclusive_because("kernel dropped datagrams (drops>0 in /proc/net/udp)")
         acc.ev(len(sent))
         acc.count(f"batches_on_port_{'default' if port in (20002, 10002, 20003, 10003) else 'custom'}")
         acc.count("devices_delivered", len(delivered))
@@ -247,9 +227,81 @@ class C05(Prop):
                   and not (o[0] == "warning" and "unknown" in o[1].lower())]
         if others:
             acc.violation("noise-on-well-formed-broadcast", f"well-formed broadcasts caused {others[:3]}", {"events": [str(o) for o in others][:8]})
+        if res == "ok" and len(delivered) == len(sent) and sent and i % 2:
+            # the consumer keeps the objects it was handed and writes into them (an optimistic state change, a nickname); then
+            # the same device broadcasts the very same bytes again: what is delivered is what the datagram says
+            d_edit, data_edit = sent[-1]
+            victim = delivered[-1]
+            before_n = len([1 for k2, p2 in log.events if k2 == "device" and not udp.is_sentinel(p2)])
+            try:
+                victim.name = "renamed by the consumer"
+                victim.device_state = type(victim.device_state)(next(x for x in type(victim.device_state) if x is not victim.device_state).value)
+                for attr, val in (("power_consumption", 4321), ("electric_current", 19.6), ("remaining_time", "11:11:11"), ("position", 3), ("target_temperature", 31)):
+                    if hasattr(victim, attr):
+                        setattr(victim, attr, val)
+            except Exception:
+                pass     # frozen or validated objects are fine too
+            self.rig.send(port, data_edit)
+            res_e = await self.rig.barrier(port)
+            acc.count("repeats_after_the_consumer_edited_the_delivered_object")
+            if res_e == "ok":
+                now_dev = [p2 for k2, p2 in log.events if k2 == "device" and not udp.is_sentinel(p2)]
+                acc.ev()
+                if len(now_dev) - before_n != 1:
+                    acc.violation(f"delivery-count-wrong:{rb.MODELS[d_edit['model']][2]}:after-consumer-edit", f"exact repeat after the consumer edited the delivered object: "
+                                  f"{len(now_dev) - before_n} deliveries", {"desc": d_edit})
+                else:
+                    for field, got, want in rb.compare_device(now_dev[-1], d_edit):
+                        acc.violation(f"field-wrong:{rb.MODELS[d_edit['model']][2]}:{field}:after-consumer-edit", f"{d_edit['model']}: after the consumer had written into the "
+                                      f"object delivered for the same bytes, {field} = {got!r}, the datagram says {want!r}", {"desc": d_edit, "field": field})
+            elif res_e == "dropped":
+                acc.inconclusive_because("kernel dropped datagrams (drops>0 in /proc/net/udp)")
+        if res == "ok" and len(delivered) == len(sent) and sent:
+            # the same bytes once more, this time to another port of the same bridge (devices broadcast to the old and the new
+            # port): one more well-formed broadcast, one more delivery
+            other = self.port2 if port == self.port else (self.port if port == self.port2 else [p for p in (20002, 10002, 20003, 10003) if p != port][i % 3])
+            d_last, data_last = sent[-1]
+            n_before = len([1 for k2, p2 in log.events if k2 == "device" and not udp.is_sentinel(p2)])
+            self.rig.send(port, data_last)      # original and copy back to back, nothing in between
+            self.rig.send(other, data_last)
+            res2 = await self.rig.barrier(port)
+            res2 = await self.rig.barrier(other) if res2 == "ok" else res2
+            acc.count("copies_sent_to_another_port_of_the_same_bridge")
+            if res2 == "ok":
+                now_dev = [p2 for k2, p2 in log.events if k2 == "device" and not udp.is_sentinel(p2)]
+                acc.ev(2)
+                if len(now_dev) - n_before != 2:
+                    acc.violation(f"delivery-count-wrong:{rb.MODELS[d_last['model']][2]}:copy-on-another-port", f"the same well-formed broadcast sent to port {port} and, "
+                                  f"right after, to port {other} of the same bridge: {len(now_dev) - n_before} devices delivered, want 2", {"desc": d_last})
+                else:
+                    for dev_ in now_dev[-2:]:
+                        for field, got, want in rb.compare_device(dev_, d_last):
+                            acc.violation(f"field-wrong:{rb.MODELS[d_last['model']][2]}:{field}", f"{d_last['model']} copy on another port: {field} = {got!r}, want {want!r}", {"desc": d_last})
+            elif res2 == "dropped":
+                acc.inconclusive_because("kernel dropped datagrams (drops>0 in /proc/net/udp)")
         if i % 160 == 1:
             d, data = sent[0]
             acc.sample({"port": port, "host_zone": zone, "desc": d, "datagram": data.hex()[:120] + "...", "delivered_as": repr(delivered[0] if delivered else "-")[:300]})
+
+
+    def thread_pairs(self, ctx):
+        r = env.rng("C05", "threads")
+        (b1, p1, g1), (b2, p2, g2) = self.tp
+        if p1 is None or p2 is None:
+            return []
+        d = {m: gen.broadcast_desc(r, m, 7, f"{0xD00000 + n:06x}") for n, m in enumerate(("BREEZE", "V4", "RUNNER", "POWER_PLUG", "BREEZE"))}
+        d2 = gen.broadcast_desc(r, "BREEZE", 11, "d000aa")
+        enc = {m: rb.encode(x) for m, x in d.items()}
+        nomagic = bytearray(enc["V4"])
+        nomagic[0:2] = b"\x00\x00"
+        unknown = bytearray(enc["V4"])
+        unknown[74:76] = b"\xee\x01"
+        H, J = udp.handed_over, udp.judge_delivery
+        return [("first broadcast ever: Breeze || Breeze", H(p1, g1, enc["BREEZE"]), H(p2, g2, rb.encode(d2)), J(d["BREEZE"]), J(d2)),
+                ("frame without the magic || genuine broadcast", H(p1, g1, bytes(nomagic)), H(p2, g2, enc["RUNNER"]), J(None), J(d["RUNNER"])),
+                ("genuine broadcast || frame without the magic", H(p1, g1, enc["POWER_PLUG"]), H(p2, g2, bytes(nomagic)), J(d["POWER_PLUG"]), J(None)),
+                ("unknown model || water heater", H(p1, g1, bytes(unknown)), H(p2, g2, enc["V4"]), J("unknown"), J(d["V4"])),
+                ("runner || plug", H(p1, g1, enc["RUNNER"]), H(p2, g2, enc["POWER_PLUG"]), J(d["RUNNER"]), J(d["POWER_PLUG"]))]
 
 
 PROP = C05()
